@@ -16,6 +16,7 @@ package main
 import (
 	"encoding/hex"
 	"fmt"
+	"os"
 	"sort"
 	"strings"
 	"unicode"
@@ -27,7 +28,13 @@ import (
 	"verifharness/hc"
 )
 
-func main() { hc.Main(run) }
+func main() {
+	if len(os.Args) >= 4 && os.Args[1] == "-vet-child" {
+		vetChild(os.Args[2:])
+		return
+	}
+	hc.Main(run)
+}
 
 func hx(s string) string {
 	if s == "" {
@@ -150,7 +157,7 @@ func lenBucket(n int) string {
 }
 
 // escapeOps: one generated string through every escape function, plus the laws on the implementation itself.
-func escapeOps(o *hc.Out, g *hc.Gen, raw string) {
+func escapeOps(o *hc.Out, raw, rest string, ansi1, ansi2 bool) {
 	s := sanitize(raw)
 	o.Count("esc.len:" + lenBucket(utf8.RuneCountInString(s)))
 	o.NonTrivial("esc:" + runeClasses(s) + ":" + lenBucket(utf8.RuneCountInString(s)))
@@ -189,7 +196,6 @@ func escapeOps(o *hc.Out, g *hc.Gen, raw string) {
 		o.Count("esc.dq_reading_differs")
 	}
 	// scan_quoted_string / scan_quoted_ident on the real scanner, both quote modes, with a continuation
-	rest := g.Pick("", " ", ",", ")", " x", "\n", ";", " 'z'", "+1", " -- c")
 	for _, ansi := range []bool{false, true} {
 		if tok, err := firstToken(option.QuoteString(s)+rest, false, ansi); err != nil || tok.Token != parser.STRING || tok.Literal != s {
 			o.Law("scan_quoted_string", map[string]interface{}{"hex": hx(s), "rest": rest, "ansi": ansi, "got": tok.Literal})
@@ -198,8 +204,8 @@ func escapeOps(o *hc.Out, g *hc.Gen, raw string) {
 			o.Law("scan_quoted_ident", map[string]interface{}{"hex": hx(s), "rest": rest, "ansi": ansi, "got": tok.Literal})
 		}
 	}
-	scanOp(o, option.QuoteString(s)+rest, false, g.Intn(2) == 0)
-	scanOp(o, option.QuoteIdentifier(s)+rest, false, g.Intn(2) == 0)
+	scanOp(o, option.QuoteString(s)+rest, false, ansi1)
+	scanOp(o, option.QuoteIdentifier(s)+rest, false, ansi2)
 }
 
 func firstToken(src string, prep, ansi bool) (parser.Token, error) {
@@ -389,37 +395,76 @@ func modeName(prep, ansi bool) string {
 
 // ---------- run ----------
 
+var escRests = []string{"", " ", ",", ")", " x", "\n", ";", " 'z'", "+1", " -- c"}
+
+func escJob(o *hc.Out, g *hc.Gen, raw string) job {
+	rest, a1, a2 := escRests[g.Intn(len(escRests))], g.Intn(2) == 0, g.Intn(2) == 0
+	s := sanitize(raw)
+	qs, qi := option.QuoteString(s)+rest, option.QuoteIdentifier(s)+rest
+	return job{vets: []vetItem{{qs, false, false}, {qs, false, true}, {qi, false, false}, {qi, false, true}},
+		run: func() { escapeOps(o, raw, rest, a1, a2) }}
+}
+
+func scanJob(o *hc.Out, text string, prep, ansi bool) job {
+	return job{vets: []vetItem{{text, prep, ansi}}, run: func() { scanOp(o, text, prep, ansi) }}
+}
+
+// run: plan every case (all randomness is spent here), vet every text in child processes, then execute.
 func run(seed int64, n int, out string, args []string) {
 	checkPool()
 	g := hc.NewGen(seed)
 	o := hc.NewOut(out)
 	defer o.Close()
+	parentWatchdog(o)
 
+	var plan []job
 	// fixed witnesses first (corpus of the property)
 	for _, s := range []string{"", "'", "''", "\"", "\"\"", "\\", "\\'", "a'b", "a\"b", "a`b", "\r\n", "a\\nb", "\\\\'", "é'ſ", "\xff'"} {
-		escapeOps(o, g, s)
+		plan = append(plan, escJob(o, g, s))
 	}
 	for _, s := range scanWitnesses {
 		for m := 0; m < 4; m++ {
-			scanOp(o, s, m&1 != 0, m&2 != 0)
+			plan = append(plan, scanJob(o, s, m&1 != 0, m&2 != 0))
 		}
 	}
-	unaryWitnesses(o)
+	plan = append(plan, job{run: func() { unaryWitnesses(o) }})
+	ps := newParseStream(o, g)
+	defer ps.close()
+	plan = append(plan, ps.witnesses()...)
 
 	nEsc, nScan, nUnary := n/8, n/4, n/8
 	for i := 0; i < nEsc; i++ {
-		escapeOps(o, g, genEscInput(g))
+		plan = append(plan, escJob(o, g, genEscInput(g)))
 	}
 	for i := 0; i < nScan; i++ {
-		scanOp(o, genScanText(g), g.Intn(2) == 0, g.Intn(2) == 0)
+		text := genScanText(g)
+		plan = append(plan, scanJob(o, text, g.Intn(2) == 0, g.Intn(2) == 0))
 	}
 	for i := 0; i < nUnary; i++ {
-		unaryOp(o, g)
+		t := genUnary(g)
+		plan = append(plan, job{run: func() { unaryCase(o, t) }})
 	}
-	ps := newParseStream(o, g)
-	defer ps.close()
-	ps.witnesses()
-	ps.run(n - nEsc - nScan - nUnary)
+	plan = append(plan, ps.plan(n-nEsc-nScan-nUnary)...)
+
+	v := newVetter(o, out)
+	var items []vetItem
+	for _, j := range plan {
+		items = append(items, j.vets...)
+	}
+	v.vet(items)
+	if v.broken {
+		// child processes cannot be run here: nothing was vetted, so nothing is handed to the scanner / parser
+		o.Law("harness_cannot_run_child_processes", map[string]string{"detail": "the totality part of stream c18 needs to re-exec its own binary"})
+		return
+	}
+	for _, j := range plan {
+		if !v.ok(j) {
+			o.Count("skipped.nonterminating_input")
+			continue
+		}
+		working("")
+		j.run()
+	}
 	ps.report()
 }
 
